@@ -372,7 +372,7 @@ JudgeOut judge(const json &plan)
 	out.k.add("naming." + std::to_string(params.value("mode", 0)));
 	out.distinct.push_back(plan_fingerprint(plan));
 	death_and_stdout(r, "", out.viol);
-	out.viol.erase(std::remove_if(out.viol.begin(), out.viol.end(), [](const Violation &v) { return v.cls.compare(0, 7, "stdout:") == 0; }), out.viol.end());
+	out.viol.erase(std::remove_if(out.viol.begin(), out.viol.end(), [](const Violation &v) { return v.cls.compare(0, 7, "stdout:") == 0 || v.cls.compare(0, 6, "stdin:") == 0; }), out.viol.end());
 	// after every parse: include stack empty, streams closed
 	for (auto &c : r.conservation)
 		if (c.compare(0, 13, "include-stack") == 0 || c.compare(0, 11, "stream-leak") == 0)
